@@ -529,6 +529,7 @@ func (k Keeper) GetAllNetFeeCollectedData(ctx sdk.Context) (netFeeCollectedData 
 
 	for ; iter.Valid(); iter.Next() {
 		var fee types.AppAssetIdToFeeCollectedData
+		k.cdc.MustUnmarshal(iter.Value(), &fee)
 		netFeeCollectedData = append(netFeeCollectedData, fee)
 	}
 	return netFeeCollectedData
